@@ -188,6 +188,19 @@ def run(ctx):
                 elif f == 'xml':
                     got = [(n, strip(d, True, False)) for n, _, d in D.read_candc_xml(out)]
                     want = [(n, view(t, str, lambda w: w, lambda x: x.op_string)) for n, t in flat]
+                    # span offsets and token attributes carried by the leaves
+                    for (xn, _, xd), (_, xt) in zip(D.read_candc_xml(out), flat):
+                        for li, (la, ltok) in enumerate(zip(leaf_attrs(xd), xt.tokens)):
+                            if any(k in ('start', 'span', 'cat') for k in ltok):
+                                continue
+                            if la.get('start') != str(li) or la.get('span') != '1':
+                                ctx.fail(f'xml: leaf {li} of sentence {xn} carries offsets start={la.get("start")} span={la.get("span")}',
+                                         dict(desc, output=out[:1500]), fingerprint=['xml-offsets', lang])
+                                break
+                            if any(la.get(k) != v for k, v in ltok.items()):
+                                ctx.fail(f'xml: leaf {li} of sentence {xn} does not carry its token\'s attributes',
+                                         dict(desc, output=out[:1500]), fingerprint=['xml-attrs', lang])
+                                break
                 elif f == 'jigg_xml':
                     got = [(n, strip(d, True, False)) for n, d in D.read_jigg(out)]
                     lab = (lambda x: x.op_symbol) if lang == 'ja' else (lambda x: x.op_string)
@@ -268,6 +281,13 @@ def enc_hskel(t):
     if t.is_leaf:
         return 'L ' + enc_str(t.word) + ' ' + se
     return 'N ' + enc_str(t.op_string) + ' ' + se + f' {len(t.children)}' + ''.join(' ' + enc_hskel(c) for c in t.children)
+
+
+def leaf_attrs(d):
+    """attribute dicts of the leaves of a decoded C&C xml tree, left to right"""
+    if d[0] == 'L':
+        return [d[3]]
+    return [a for k in d[4] for a in leaf_attrs(k)]
 
 
 def all_nodes(t):
